@@ -559,6 +559,10 @@ class CBO(Search):
             t1 = time.time()
             self._opt.tell(opt_X, opt_y)
             logging.info(f"Fitting took {time.time() - t1:.4f} sec.")
+        elif len(results) > 0:
+            # Nothing to learn from (e.g., only failures with filter_failures="ignore") but the
+            # last suggestions were evaluated: renew them so that they are not suggested again
+            self._opt.update_next()
 
     def _search(self, max_evals, timeout, max_evals_strict=False):
         if self._opt is None:
